@@ -211,35 +211,27 @@ def toDictDefault (S : Schema) (E : Enums) (f : FieldD) (sel incl : Bool) : Opti
     else some (.raw .ph)
   | k => toDictPlain S E f sel incl (defaultOfKind S k)
 
+/-- a dict from its items -/
+def mkObj (kvs : List (JKey × JVal)) : JVal := .obj (kvs.map (·.1)) (kvs.map (·.2))
+
 mutual
 /-- `m.to_dict(casing, include_default_values)` -/
 def toDict (S : Schema) (E : Enums) (cs : KeyCase) (incl : Bool) : Val → JVal
   | .msg c slots _ _ cur =>
-    .obj (toDictKeys S E cs incl (fieldsOf S c) cur 0 slots) (toDictVals S E cs incl (fieldsOf S c) cur 0 slots)
+    mkObj (toDictKVs S E cs incl (fieldsOf S c) cur 0 slots)
   | v => .raw v
 
-/-- keys of the output dict, in `meta_by_field_name` order -/
-def toDictKeys (S : Schema) (E : Enums) (cs : KeyCase) (incl : Bool) (fs : List FieldD) (cur : List (Option Nat)) :
-    Nat → List Val → List JKey
+/-- the items of the output dict, in `meta_by_field_name` order -/
+def toDictKVs (S : Schema) (E : Enums) (cs : KeyCase) (incl : Bool) (fs : List FieldD) (cur : List (Option Nat)) :
+    Nat → List Val → List (JKey × JVal)
   | _, [] => []
   | idx, v :: vs =>
     match fs[idx]? with
     | Option.none => []
     | some f =>
       match toDictSlot S E cs incl f (hidden f idx cur) (selectedInGroup f idx cur) v with
-      | some _ => jsonKey cs f.name :: toDictKeys S E cs incl fs cur (idx + 1) vs
-      | Option.none => toDictKeys S E cs incl fs cur (idx + 1) vs
-
-def toDictVals (S : Schema) (E : Enums) (cs : KeyCase) (incl : Bool) (fs : List FieldD) (cur : List (Option Nat)) :
-    Nat → List Val → List JVal
-  | _, [] => []
-  | idx, v :: vs =>
-    match fs[idx]? with
-    | Option.none => []
-    | some f =>
-      match toDictSlot S E cs incl f (hidden f idx cur) (selectedInGroup f idx cur) v with
-      | some j => j :: toDictVals S E cs incl fs cur (idx + 1) vs
-      | Option.none => toDictVals S E cs incl fs cur (idx + 1) vs
+      | some j => (jsonKey cs f.name, j) :: toDictKVs S E cs incl fs cur (idx + 1) vs
+      | Option.none => toDictKVs S E cs incl fs cur (idx + 1) vs
 
 /-- one iteration of the loop of `to_dict`; `Option.none` = the field is left out -/
 def toDictSlot (S : Schema) (E : Enums) (cs : KeyCase) (incl : Bool) (f : FieldD) (hid sel : Bool) : Val → Option JVal
@@ -274,7 +266,7 @@ def toDictSlot (S : Schema) (E : Enums) (cs : KeyCase) (incl : Bool) (f : FieldD
     else if f.ty == .message && f.wraps.isNone && !f.repeated then
       -- (after the D27 repair: a proto3-optional member that is not None is always written)
       if ow || incl || f.optional || sel then
-        some (.obj (toDictKeys S E cs incl (fieldsOf S c) cur 0 slots) (toDictVals S E cs incl (fieldsOf S c) cur 0 slots))
+        some (mkObj (toDictKVs S E cs incl (fieldsOf S c) cur 0 slots))
       else Option.none
     else some (.raw (.msg c slots ow unk cur))
   | v => if hid then toDictDefault S E f sel incl else toDictPlain S E f sel incl v
@@ -285,7 +277,7 @@ def toDictList (S : Schema) (E : Enums) (cs : KeyCase) (incl : Bool) : List Val 
   | x :: xs =>
     (match x with
      | .msg c slots _ _ cur =>
-       JVal.obj (toDictKeys S E cs incl (fieldsOf S c) cur 0 slots) (toDictVals S E cs incl (fieldsOf S c) cur 0 slots)
+       mkObj (toDictKVs S E cs incl (fieldsOf S c) cur 0 slots)
      | x => JVal.raw x) :: toDictList S E cs incl xs
 
 /-- map values: those with a `to_dict` method are converted, all others stay as they are -/
@@ -294,7 +286,7 @@ def toDictMapVals (S : Schema) (E : Enums) (cs : KeyCase) (incl : Bool) : List V
   | x :: xs =>
     (match x with
      | .msg c slots _ _ cur =>
-       JVal.obj (toDictKeys S E cs incl (fieldsOf S c) cur 0 slots) (toDictVals S E cs incl (fieldsOf S c) cur 0 slots)
+       mkObj (toDictKVs S E cs incl (fieldsOf S c) cur 0 slots)
      | x => rawJ x) :: toDictMapVals S E cs incl xs
 end
 
